@@ -12,6 +12,7 @@ import (
 	"strings"
 	"sync/atomic"
 	"testing"
+	"time"
 
 	"github.com/consensys/gnark/constraint"
 	"github.com/consensys/gnark/frontend"
@@ -37,12 +38,18 @@ func TestC19(t *testing.T) {
 	mon := c06mon.Install(r, r.Pick(8, 16))
 	defer mon.Uninstall()
 
+	phase := func(name string, f func()) {
+		t0 := time.Now()
+		f()
+		r.Set("phase_seconds."+name, time.Since(t0).Seconds())
+		fmt.Printf("phase %-12s %.1fs\n", name, time.Since(t0).Seconds())
+	}
 	checkRegistry(r)
 	topos := genTopologies(r)
-	runTopologies(r, topos)
-	runPoseidon2(r)
-	runProvers(r, topos)
-	runTestEngine(r, topos)
+	phase("topologies", func() { runTopologies(r, topos) })
+	phase("poseidon2", func() { runPoseidon2(r) })
+	phase("provers", func() { runProvers(r, topos) })
+	phase("testengine", func() { runTestEngine(r, topos) })
 
 	r.Count("tap.hint-calls", int(tapCalls.Load()))
 	for _, c := range []string{
